@@ -359,6 +359,53 @@ theorem mapping_continuation_invariant_pinned
   exact congrArg some
     (SnowModel.Props.C16.mapping_continuation_invariant saved observed hnd hsub tables decls)
 
+/-! ### the frame of `TableInfo.fields` -/
+
+/-- Every use of a `.fields` attribute, anywhere in the package outside the parser, that is not
+    syntactically read-only. A new writer (an output stream that builds its header inside
+    `table.fields`, a plugin that patches the schema …) adds an entry and breaks this lemma. -/
+theorem fieldsUsesOutsideParser_eq : fieldsUsesOutsideParser =
+    ["snowfakery/data_generator_runtime_object_model.py:ObjectTemplate.__init__: rebind: self.fields = fields",
+     "snowfakery/generate_mapping_from_recipe.py:remove_person_contact_id: item store/delete: del tables['Account'].fields['PersonContactId']",
+     "snowfakery/generate_mapping_from_recipe.py:mappings_from_load_steps: escapes (alias / argument / return): record_type_col = find_record_type_column(table_name, load_step.fields)",
+     "snowfakery/standard_plugins/Salesforce.py:_create_db: rebind: ti.fields = {fieldname: None for fieldname in fieldnames}"] := rfl
+
+/-- the one writer of a parse-time `TableInfo.fields` after parsing; it is part of the mapping
+    generator and modelled (`removePersonContactField`) -/
+def modelledFieldWrites : List String :=
+  ["snowfakery/generate_mapping_from_recipe.py:remove_person_contact_id: item store/delete: del tables['Account'].fields['PersonContactId']"]
+
+/-- uses that cannot reach a parse-time `TableInfo.fields`: the constructor of `ObjectTemplate` binds the
+    template's own field *list*; `find_record_type_column` (source pinned above) only reads the `LoadStep`
+    tuple; the Salesforce plugin fills a `TableInfo` it has just created for a dataset database -/
+def benignFieldUses : List String :=
+  ["snowfakery/data_generator_runtime_object_model.py:ObjectTemplate.__init__: rebind: self.fields = fields",
+   "snowfakery/generate_mapping_from_recipe.py:mappings_from_load_steps: escapes (alias / argument / return): record_type_col = find_record_type_column(table_name, load_step.fields)",
+   "snowfakery/standard_plugins/Salesforce.py:_create_db: rebind: ti.fields = {fieldname: None for fieldname in fieldnames}"]
+
+/-- what is left: writers between parsing and mapping generation that the model does not account for -/
+def unmodelledFieldWrites : List String :=
+  fieldsUsesOutsideParser.filter (fun u => !(modelledFieldWrites.contains u || benignFieldUses.contains u))
+
+set_option maxRecDepth 8000 in
+theorem unmodelled_field_writes_none : unmodelledFieldWrites = [] := by decide
+
+/-- an unknown writer has an unknown effect: only the empty list is interpreted -/
+def writesOfPins : List String → Option (List FieldWrite)
+  | [] => some []
+  | _ => none
+
+/-- **The mapping is a function of the parse result and the runtime dependency set only**, for the
+    source as it is: the writes into the table infos derived from the pins are none, hence
+    (`Props.C16.mapping_function_of_parse_and_dependencies`) the run's mapping is
+    `mappingFromRecipe tables deps decls`, and any two output configurations give the same mapping. -/
+theorem mapping_function_of_parse_and_dependencies_pinned (tables : List TableInfo) (deps : List Dep)
+    (decls : List Decl) :
+    (writesOfPins unmodelledFieldWrites).map (fun ws => mappingOfRun ws tables deps decls) =
+      some (mappingFromRecipe tables deps decls) := by
+  rw [unmodelled_field_writes_none]
+  rfl
+
 /-! ### hidden names -/
 
 theorem hiddenPrefixes_eq : hiddenPrefixes = ["__", "__", "__", "__"] := rfl
